@@ -55,8 +55,8 @@ Theorem C19_coarse_covers :
 Proof. exact coarse_covers. Qed.
 Print Assumptions C19_coarse_covers.
 Theorem C19_coarse_dt :
-  forall g disc cpts r k, coarse g disc cpts = Some r -> (k < List.length (coarse_groups g cpts))%nat ->
-  nth k (rg_dt r) 0 == qsum (pick 0 (g_dt g) (nth k (coarse_groups g cpts) [])).
+  forall g disc cpts r k, coarse g disc cpts = Some r -> (k < List.length (coarse_groups_in g cpts))%nat ->
+  nth k (rg_dt r) 0 == qsum (pick 0 (g_dt g) (nth k (coarse_groups_in g cpts) [])).
 Proof. exact coarse_dt_sum. Qed.
 Print Assumptions C19_coarse_dt.
 
